@@ -165,6 +165,11 @@ pub(super) fn derive_schema(input: TokenStream) -> syn::Result<TokenStream> {
                         || field_attrs.serde.skip_deserializing /* written, but never read */
                         || field_attrs.serde.skip_serializing_if.is_some();
 
+                    /* serde writes a `None` as `null` (and reads `null` as `None`) */
+                    let is_nullable_field = inner_option.is_some()
+                        && field_attrs.serde.skip_serializing_if.is_none()
+                        && !field_attrs.serde.flatten;
+
                     let mut property_schema = {
                         if let Some(inner_option) = inner_option {quote! {
                             ::ohkami::openapi::schema::Schema::<::ohkami::openapi::schema::Type::any>::from(
@@ -178,6 +183,12 @@ pub(super) fn derive_schema(input: TokenStream) -> syn::Result<TokenStream> {
                             )
                         }}
                     };
+
+                    if is_nullable_field {
+                        property_schema = quote! {
+                            ::ohkami::openapi::anyOf((#property_schema, ::ohkami::openapi::null()))
+                        };
+                    }
 
                     if let Some(description) = extract_doc_comment(&f.attrs) {
                         property_schema = {
